@@ -721,7 +721,11 @@ def oracle_C07(t):
             sk = kt(o["start"]["key"])
             if sk in dead_keys and sk not in t.draws(i):
                 out.append(F(i, "a request obtained a session that had been destroyed or invalidated"))
-        if fr["ended"] and st["kind"] == "req" and t.plain(i):
+        judged = t.plain(i) or (i == t.first_dirty and o["res"] not in ("crashed", "panic") and st.get("crash") is None
+                                and all(r_["kind"] in ("ok", "val") for r_ in o.get("script") or []) and o["res"] in ("sess", "none"))
+        if fr["ended"] and st["kind"] == "req" and judged:
+            # (also on the first step with a store failure when every call of
+            # the request reported success: Destroy then claims the session is gone)
             # the session that ended must be gone from memory and store under
             # every ID it has (replaced-ID records may linger until their clean-up)
             post = t.post(i)
